@@ -1573,6 +1573,13 @@ InsertItemsAt(uint32 index, const ItemType * items, uint32 numNewItems)
    index = muscleMin(index, _itemCount);
 
    if (numNewItems == 0) return B_NO_ERROR;
+   if (IsItemLocatedInThisContainer(*items))
+   {
+      // Guard against overwriting the source material as we insert
+      Queue<ItemType> temp;
+      status_t ret;
+      return temp.AddTailMulti(items, numNewItems).IsOK(ret) ? InsertItemsAt(index, temp) : ret;
+   }
    if (numNewItems == 1)
    {
       if (index == 0)          return AddHead(*items);
